@@ -222,8 +222,138 @@ fn interesting_indices(entropy: &[u8]) -> Vec<u32> {
     out
 }
 
+// ---------------------------------------------------------------- other encodings of a valid key, histories
+
+/// Byte strings that are some OTHER encoding of a valid key (hex text with and without prefix, base64,
+/// SEC1 / PKCS#8 DER, WIF-like, padded) or raw secrets that happen to start with such a marker: each must be
+/// rejected or taken as the same big-endian integer - never decoded into the embedded key.
+fn encodings_of(k: &[u8; 32]) -> Vec<(String, Vec<u8>)> {
+    let hex = hex_lower(k);
+    let mut v: Vec<(String, Vec<u8>)> = vec![];
+    v.push(("hex-text".into(), hex.as_bytes().to_vec()));
+    v.push(("hex-text-upper".into(), hex.to_uppercase().into_bytes()));
+    v.push(("0x-hex-text".into(), format!("0x{hex}").into_bytes()));
+    let mut p34 = b"0x".to_vec();
+    p34.extend_from_slice(k);
+    v.push(("0x-then-raw".into(), p34));
+    let mut raw0x = *k;
+    raw0x[0] = b'0';
+    raw0x[1] = b'x';
+    v.push(("raw-starting-with-0x".into(), raw0x.to_vec()));
+    let mut raw_hexlike = [0u8; 32];
+    for (i, b) in raw_hexlike.iter_mut().enumerate() {
+        *b = hex.as_bytes()[i];
+    }
+    v.push(("raw-32-ascii-hex-digits".into(), raw_hexlike.to_vec()));
+    // SEC1 ECPrivateKey DER: 30 25 02 01 01 04 20 <key>, and with the secp256k1 OID parameters
+    let mut der = vec![0x30, 0x25, 0x02, 0x01, 0x01, 0x04, 0x20];
+    der.extend_from_slice(k);
+    v.push(("sec1-der-39".into(), der));
+    let mut der2 = vec![0x30, 0x2e, 0x02, 0x01, 0x01, 0x04, 0x20];
+    der2.extend_from_slice(k);
+    der2.extend_from_slice(&[0xa0, 0x07, 0x06, 0x05, 0x2b, 0x81, 0x04, 0x00, 0x0a]);
+    v.push(("sec1-der-48-with-oid".into(), der2));
+    // PKCS#8 wrapping of the SEC1 structure
+    let mut p8 = vec![0x30, 0x3e, 0x02, 0x01, 0x00, 0x30, 0x10, 0x06, 0x07, 0x2a, 0x86, 0x48, 0xce, 0x3d, 0x02, 0x01, 0x06, 0x05, 0x2b, 0x81, 0x04, 0x00, 0x0a, 0x04, 0x27, 0x30, 0x25, 0x02, 0x01, 0x01, 0x04, 0x20];
+    p8.extend_from_slice(k);
+    v.push(("pkcs8-der".into(), p8));
+    // WIF-like payload: 0x80 || key || 0x01
+    let mut wif = vec![0x80];
+    wif.extend_from_slice(k);
+    wif.push(0x01);
+    v.push(("wif-payload-34".into(), wif));
+    // right-padded and both-sides padded
+    let mut rp = k.to_vec();
+    rp.push(0);
+    v.push(("right-padded-33".into(), rp));
+    let mut lp = vec![0u8];
+    lp.extend_from_slice(k);
+    v.push(("left-padded-33".into(), lp));
+    // base64 text of the key (44 characters)
+    const B64: &[u8; 64] = b"ABCDEFGHIJKLMNOPQRSTUVWXYZabcdefghijklmnopqrstuvwxyz0123456789+/";
+    let mut b64 = vec![];
+    for c in k.chunks(3) {
+        let n = (c[0] as u32) << 16 | (*c.get(1).unwrap_or(&0) as u32) << 8 | *c.get(2).unwrap_or(&0) as u32;
+        b64.push(B64[(n >> 18) as usize & 63]);
+        b64.push(B64[(n >> 12) as usize & 63]);
+        b64.push(if c.len() > 1 { B64[(n >> 6) as usize & 63] } else { b'=' });
+        b64.push(if c.len() > 2 { B64[n as usize & 63] } else { b'=' });
+    }
+    v.push(("base64-text".into(), b64));
+    // the key twice, and the key followed by its public x coordinate (64 bytes)
+    let mut twice = k.to_vec();
+    twice.extend_from_slice(k);
+    v.push(("key-twice-64".into(), twice));
+    v
+}
+
+/// A history of PrivateKey::new calls on one thread (the oracle is history-independent).
+#[derive(Clone, Debug, Serialize, Deserialize)]
+pub struct History {
+    pub inputs_hex: Vec<String>,
+}
+
+fn gen_history(tape: Vec<u8>) -> History {
+    let mut u = U::new(&tape);
+    let n = u.range(2, 7);
+    let mut inputs = vec![];
+    for _ in 0..n {
+        let v: Vec<u8> = match u.below(8) {
+            0 => secp::N.to_vec(),
+            1 => vec![0xff; 32],
+            2 => {
+                let mut k = [0xffu8; 32];
+                k[16..].copy_from_slice(&u.bytes(16));
+                k.to_vec()
+            }
+            3 => vec![0u8; 32],
+            4 => {
+                // short secret 1..31 bytes
+                let l = u.range(1, 31);
+                let mut b = u.bytes(l);
+                if b.iter().all(|x| *x == 0) {
+                    b[l - 1] = 1;
+                }
+                b
+            }
+            5 => {
+                let l = u.range(33, 64);
+                u.bytes(l)
+            }
+            _ => gen_valid_scalar(&mut u).to_vec(),
+        };
+        inputs.push(hex_lower(&v));
+    }
+    History { inputs_hex: inputs }
+}
+
+fn judge_history(h: &History, cls: &mut Classifier) -> Verdict {
+    for (i, x) in h.inputs_hex.iter().enumerate() {
+        if i > 0 {
+            cls.eval();
+        }
+        let mut scratch = Classifier::default();
+        judge(&Case { secret_hex: x.clone() }, &mut scratch).map_err(|mut e| {
+            e.note = format!("call #{i} of a history on one thread (earlier inputs: {}): {}", h.inputs_hex[..i].join(", "), e.note);
+            e
+        })?;
+    }
+    cls.label("history");
+    let short_after_rejected = h.inputs_hex.windows(2).any(|w| {
+        let a = unhex(&w[0]).unwrap_or_default();
+        let b = unhex(&w[1]).unwrap_or_default();
+        a.len() == 32 && a.try_into().map(|k: [u8; 32]| !secp::is_valid_secret(&k) && k != [0u8; 32]).unwrap_or(false) && b.len() < 32 && !b.is_empty()
+    });
+    if short_after_rejected {
+        cls.label("history-short-after-rejected");
+    }
+    cls.nontrivial(&h.inputs_hex);
+    cls.sample("history", || json!(h.inputs_hex));
+    Ok(())
+}
+
 pub fn run(ctx: &mut Ctx) {
-    ctx.rule = "(i) 32-byte scalars in [1,n-1] from {1,2,3,n-1..n-3,(n-1)/2,(n+1)/2,2^k-1,2^k,2^k+1,leading-zero,uniform}; (ii) out-of-range 32-byte values {0,n,n+1,n+2,2^256-1,uniform in [n,2^256)}; (iii) every length 0..=64 with zero-padded / random / all-zero / all-0xff content. Oracle: independent secp256k1 scalar multiplication, sha3 Keccak, own EIP-55. CLI sample: `public-key`, `address` and `export` for the accounts (indices 0..64 of generated mnemonics) whose X, Y, secret or address start with a zero nibble must print the reference values in full width. Non-trivial: not the Ganache test key; distinct by scalar.".into();
+    ctx.rule = "(i) 32-byte scalars in [1,n-1] from {1,2,3,n-1..n-3,(n-1)/2,(n+1)/2,2^k-1,2^k,2^k+1,leading-zero,uniform}; (ii) out-of-range 32-byte values {0,n,n+1,n+2,2^256-1,uniform in [n,2^256)}; (iii) every length 0..=64 with zero-padded / random / all-zero / all-0xff content; (iv) other encodings of valid keys (hex text with/without 0x, base64, SEC1 and PKCS#8 DER, WIF payload, padded, raw secrets starting with ASCII '0x' or made of ASCII hex digits); (v) histories of 2..7 calls on one thread mixing rejected out-of-range values, short, long and valid secrets. Oracle: independent secp256k1 scalar multiplication, sha3 Keccak, own EIP-55. CLI sample: `public-key`, `address` and `export` for the accounts (indices 0..64 of generated mnemonics) whose X, Y, secret or address start with a zero nibble must print the reference values in full width. Non-trivial: not the Ganache test key; distinct by scalar.".into();
     ctx.assumptions = vec!["reference secp256k1 agrees with k256 on the selftest sample (two independent implementations)".into()];
     ctx.replay_known_and_regressions(&replay);
     let n = ctx.tier.pick(50_000, 500_000);
@@ -284,6 +414,19 @@ pub fn run(ctx: &mut Ctx) {
     }
     ctx.run_cases("lengths", &lens, judge);
     ctx.exhaustive_parts.push("input lengths 0..=64 (8 contents each)".into());
+    // other encodings of valid keys
+    let mut enc = vec![];
+    for i in 0..ctx.tier.pick(40, 1000) as u64 {
+        let tape = p.bytes(48);
+        let k = if i == 0 { b32(1) } else { gen_valid_scalar(&mut U::new(&tape)) };
+        for (name, bytes) in encodings_of(&k) {
+            let _ = name;
+            enc.push(Case { secret_hex: hex_lower(&bytes) });
+        }
+    }
+    ctx.run_cases("encodings", &enc, judge);
+    ctx.run_prop("history", ctx.tier.pick(20_000, 200_000), || crate::gen::tape(300).prop_map(gen_history), judge_history);
+    ctx.floor_abs("history-short-after-rejected", 500);
     if crate::cli::global_cli().is_some() {
         let mut cc = vec![];
         for m in 0..ctx.tier.pick(2, 20) as u64 {
@@ -309,7 +452,8 @@ pub fn run(ctx: &mut Ctx) {
 
 pub fn replay(sub: &str, case: &Value) -> Option<Verdict> {
     match sub {
-        "valid" | "out-of-range" | "lengths" => Some(replay_as::<Case>(case, judge)),
+        "valid" | "out-of-range" | "lengths" | "encodings" => Some(replay_as::<Case>(case, judge)),
+        "history" => Some(replay_as::<History>(case, judge_history)),
         "cli-keys" => Some(replay_as::<CliCase>(case, judge_cli)),
         _ => None,
     }
